@@ -31,6 +31,7 @@ MNext == /\ l <= NLines /\ l' = l + 1
                    /\ Check(l, "OutputValid", D!OutputValid(c, o))
                    /\ Check(l, "TextFallback", D!TextFallback(c, o))
                    /\ Check(l, "BadOutputIsError", D!BadOutputIsError(c, o))
+                   /\ Check(l, "ValidOutputReturned", D!ValidOutputReturned(c, o))
                    /\ Check(l, "drift", o = D!ExpectedOut(c))
               ELSE LET c == InCaseOf(e)
                        o == InOut(e) IN
